@@ -21,7 +21,8 @@ RULE = (
     "sha1(spec)."
 )
 ASSUMPTIONS = [
-    "parallel=False inside the machine (no pools)",
+    "forest / tempering drivers run serially or on harness-owned in-process pools that "
+    "emulate the process-pool (pickle boundary) and scatter-pool (futures) protocols; no real processes",
     "a transformation that raises is counted (classes raised:*), the tree is "
     "restored from a pre-op copy and the history continues: the property "
     "speaks about the state after transformations that complete",
